@@ -321,6 +321,8 @@ func runCase() {
 		caseBoundary(res, idx, dir)
 	case "gcroll":
 		caseGCRoll(res, idx, dir, seed, tier)
+	case "backreset":
+		caseBackReset(res, idx, dir, seed, tier)
 	}
 	seam.Restore()
 	data, _ := json.Marshal(res)
